@@ -17,10 +17,6 @@ FIXMIN = -(1 << 62)
 BOUNDS = [0, 1, 2, 61, 62, 63, 64, 65, 66, 126, 127, 128, 129, 130, 191, 192, 193, 200, 256, 257]
 SIZES = [0, 1, 2, 3, 61, 62, 63, 64, 65, 127, 128, 129]
 
-# (bitwise-fold kons knil i) / (bitwise-for-each proc i) for NEGATIVE i: SRFI 151 defines them ("each bit of i from bit 0
-# to bit (integer-length i) exclusive"); the pinned bitwise.scm loops until i = 0, i.e. for ever (and conses without
-# bound).  The probe runs ONE such call in its own process (3 s, 512 MB).  Set to False to skip it.
-PROBE_FOLD_NEGATIVE = True
 # errors(): also provoke an allocation failure inside bit-and / bit-ior / bit-xor / arithmetic-shift (see there)
 OOM_CASES = True
 
@@ -164,6 +160,7 @@ def run_batch(d, exprs, imports, prelude_extra="", env=None, mem_mb=None, timeou
 class Cases:
     def __init__(self, lib):
         self.lib, self.rows = lib, []
+        self.neg_fold = []      # bitwise-fold / bitwise-for-each over a NEGATIVE integer: run apart (see wrappers)
 
     def add(self, name, expr, want, ints, tag=None):
         """name = exported name (+ '/variant'); ints = the integer operands (for the class and the non-trivial rule);
@@ -306,26 +303,30 @@ def _gen_conv(c, rng, lat, names):
 
 def _gen_higher(c, rng, lat, a):
     r = rng.random()
-    p = abs(a)
-    if r < 0.2:
-        # bitwise-fold proc seed i: (proc b r) for each bit b of i from bit 0 to bit (integer-length i) exclusive
-        c.add("bitwise-fold/cons", "(bitwise-fold cons '() %s)" % lit(p), bits_of(p, ilen(p))[::-1], [p])
-    elif r < 0.3:
-        want = 0
-        for b in bits_of(p, ilen(p)):
-            want = 2 * want + (1 if b else 0)
-        c.add("bitwise-fold/reverse", "(bitwise-fold (lambda (b acc) (+ (* 2 acc) (if b 1 0))) 0 %s)" % lit(p), want, [p])
-    elif r < 0.35:
-        c.add("bitwise-fold/count", "(bitwise-fold (lambda (b acc) (if b (+ acc 1) acc)) 0 %s)" % lit(p), popcount(p), [p])
-    elif r < 0.55:
-        c.add("bitwise-for-each", "(let ((l '())) (bitwise-for-each (lambda (b) (set! l (cons b l))) %s) (reverse l))" % lit(p),
-              bits_of(p, ilen(p)), [p])
+    bs = bits_of(a, ilen(a))
+    if r < 0.55:
+        # bitwise-fold proc seed i: (proc b r) for each bit b of i from bit 0 to bit (integer-length i) exclusive, negative
+        # i included (-6 = ...11010 has the three bits #f #t #f); bitwise-for-each proc i: the same bits in the same order
+        if r < 0.2:
+            row = ("bitwise-fold/cons", "(bitwise-fold cons '() %s)" % lit(a), bs[::-1], (a,), None)
+        elif r < 0.3:
+            want = 0
+            for b in bs:
+                want = 2 * want + (1 if b else 0)
+            row = ("bitwise-fold/reverse", "(bitwise-fold (lambda (b acc) (+ (* 2 acc) (if b 1 0))) 0 %s)" % lit(a), want, (a,), None)
+        elif r < 0.35:
+            row = ("bitwise-fold/count", "(bitwise-fold (lambda (b acc) (if b (+ acc 1) acc)) 0 %s)" % lit(a), sum(bs), (a,), None)
+        else:
+            row = ("bitwise-for-each", "(let ((l '())) (bitwise-for-each (lambda (b) (set! l (cons b l))) %s) (reverse l))" % lit(a), bs, (a,), None)
+        (c.neg_fold if a < 0 else c.rows).append(row)
     elif r < 0.75:
         # bitwise-unfold stop? mapper successor seed: bit 0 first, a true mapper value is a 1 bit
         n = rng.choice([0, 1, 61, 62, 63, 64, 65, 128, ilen(a), ilen(a) + 1, ilen(a) + 5, rng.randrange(0, 300)])
         if rng.random() < 0.5:
             bs = bits_of(a, n)
-            c.add("bitwise-unfold/vector", "(let ((v %s)) (bitwise-unfold (lambda (i) (= i %d)) (lambda (i) (vector-ref v i)) (lambda (i) (+ i 1)) 0))" % (_bvec(bs), n),
+            # "interpreting a true value as a 1 bit": half of the time the mapper answers the index (0 included) for a 1 bit
+            mapper = rng.choice(["(vector-ref v i)", "(and (vector-ref v i) i)"])
+            c.add("bitwise-unfold/vector", "(let ((v %s)) (bitwise-unfold (lambda (i) (= i %d)) (lambda (i) %s) (lambda (i) (+ i 1)) 0))" % (_bvec(bs), n, mapper),
                   a & mask(n), [a & mask(n)])
         else:
             c.add("bitwise-unfold/shift", "(bitwise-unfold (lambda (s) (= (car s) %d)) (lambda (s) (odd? (cdr s))) (lambda (s) (cons (+ (car s) 1) (quotient (- (cdr s) (modulo (cdr s) 2)) 2))) (cons 0 %s))" % (n, lit(a)),
@@ -408,6 +409,8 @@ def wrappers(ctx, d, exe, rng, lat):
                 _gen_nary(c, rng, lat, name=name, k=argc)
         while len(c.rows) < k:
             gen(c, rng, lat)
+        if c.neg_fold:
+            c.rows += _fold_negative(ctx, d, lib, imports, c.neg_fold)
         exprs = [row[1] for row in c.rows]
         # 1 GB of address space is plenty for 300-bit operands; it turns an accidental (arithmetic-shift 1 <operand>)
         # -- e.g. a wrapper that passes its arguments in the wrong order -- into "out of memory" instead of gigabytes
@@ -424,22 +427,33 @@ def wrappers(ctx, d, exe, rng, lat):
             j = len(c.rows) // 2
             ctx.sample(dict(kind="wrappers", lib=libname, expr=c.rows[j][1][:300], oracle=show(c.rows[j][2])[:300], impl=(got[j] or "")[:300]))
             first = False
-    if PROBE_FOLD_NEGATIVE:
-        _probe_fold_negative(ctx, d)
 
 
-def _probe_fold_negative(ctx, d):
-    cases = [("bitwise-fold", "(bitwise-fold cons '() -5)", [False, True, True]),
-             ("bitwise-for-each", "(let ((l '())) (bitwise-for-each (lambda (b) (set! l (cons b l))) #x-10000000000000000) (length l))", 64)]
-    for name, e, want in cases:
-        g = run_batch(d, [e], "(import (srfi 151))", mem_mb=512, timeout=3)[0]
-        ctx.count(1, key=("srfi151", e), nontrivial=True)
-        ok, why = agree(want, g)
-        if not ok:
-            ctx.violation("srfi151:%s:negative" % name, input=e, expected=show(want), observed=(g or "")[:300],
-                          why="SRFI 151: each bit of i from bit 0 to (integer-length i) exclusive; " + (
-                              "does not terminate (3 s / 512 MB)" if g in ("TIMEOUT", None) or "memory" in (g or "") else why),
-                          replay="echo '(import (scheme base) (scheme write) (srfi 151)) (write %s)' | timeout 5 chibi-scheme /dev/stdin" % e)
+_fold_ok = {}
+
+
+def _fold_negative(ctx, d, lib, imports, rows):
+    """the pinned bitwise.scm loops `until i = 0`, which a negative i never reaches (it conses for ever): ONE call per
+    procedure is tried first in its own process (3 s, 512 MB); only when it comes back are the negative rows returned to
+    be run with the others.  A probe that hangs / dies is the violation <lib>:<proc>:negative-nontermination."""
+    probes = {"bitwise-fold": ("(bitwise-fold cons '() -6)", [False, True, False]),
+              "bitwise-for-each": ("(let ((l '())) (bitwise-for-each (lambda (b) (set! l (cons b l))) #x-10000000000000000) (length l))", 64)}
+    keep = []
+    for proc, (e, want) in probes.items():
+        if (d, lib, proc) not in _fold_ok:
+            g = run_batch(d, [e], imports, mem_mb=512, timeout=3)[0]
+            ctx.count(1, key=(lib, e), nontrivial=True)
+            ok, why = agree(want, g)
+            dead = g is None or g.startswith(("TIMEOUT", "CRASH")) or "memory" in g
+            _fold_ok[(d, lib, proc)] = not dead
+            if not ok:
+                ctx.violation("%s:%s:%s" % (lib, proc, "negative-nontermination" if dead else "negative"), input=e, expected=show(want),
+                              observed=(g or "")[:300], why="SRFI 151: each bit of i from bit 0 to (integer-length i) exclusive" + (
+                                  "; no answer within 3 s / 512 MB" if dead else "; " + why),
+                              replay="echo '(import (scheme base) (scheme write) (srfi %s)) (write %s)' | (ulimit -v 524288; timeout 5 chibi-scheme /dev/stdin)" % (lib[4:], e))
+        if _fold_ok[(d, lib, proc)]:
+            keep += [r for r in rows if r[0].split("/")[0] == proc]
+    return keep
 
 
 # ------------------------------------------------------------------------------------------------ (B) errors
@@ -519,8 +533,10 @@ def errors(ctx, rng):
     for i in INDEXES:
         for v in BITSET_VALUES:
             ki = "negative-index" if i < 0 else "bignum-index" if not fits(i) else "huge-index" if i > (1 << 30) else "index"
-            # a negative index is outside SRFI 151 (anything but a crash); else #t/#f by sign extension
-            row("bit-set?", [lit(i), lit(v)], "%s/%s" % (ki, cls(v)), None if i < 0 else ("val", show(bool((v >> i) & 1) if i < (1 << 40) else v < 0)))
+            # SRFI 151 requires a non-negative index: bit.c answers "index must be non-negative"; a VALUE would come from
+            # 1 << negative / a word read below the bignum, so only an error is accepted; else #t/#f by sign extension
+            row("bit-set?", [lit(i), lit(v)], "%s/%s" % (ki, cls(v)),
+                ("err-only", "the index is negative") if i < 0 else ("val", show(bool((v >> i) & 1) if i < (1 << 40) else v < 0)))
     for v in BITSET_VALUES:
         row("bit-count", [lit(v)], cls(v), ("val", show(popcount(v))))
         row("integer-length", [lit(v)], cls(v), ("val", show(ilen(v))))
